@@ -1,0 +1,46 @@
+//go:build verif
+
+// Contracts for the deductive verifier in /verif (govc). Comment-only: this file declares nothing and is
+// compiled only under the build tag `verif`. Syntax: see /verif/DESIGN.md §2.5.
+
+package inmem
+
+//@ file store.go
+
+// The event index lives in a table of struct *values* (outside the ghost-table model). ASSUMED contracts: the
+// metadata table operations do not fail on the statically valid table (A-MEMDB-NOERR) and touch no resource.
+//@ func incrementEventIndex
+//@ trusted
+//@ results idx, err
+//@ ensures[no-error] err == nil
+//@ func Store.publishEvent
+//@ trusted
+
+//@ func Store.WriteCAS
+//@ props C18
+//@ results err
+//@ requires s != nil && res != nil && res.Id != nil && res.Id.Type != nil && res.Id.Tenancy != nil
+//@ ensures[version-cas] err == nil ==> (old(T_resources(res.Id)) == nil && vsn == "") || (old(T_resources(res.Id)) != nil && old(T_resources(res.Id)).Version == vsn)
+//@ ensures[uid-stable] err == nil && old(T_resources(res.Id)) != nil ==> old(T_resources(res.Id)).Id.Uid == res.Id.Uid
+//@ ensures[stored-and-committed] err == nil ==> T_resources(res.Id) == res && commits() == old(commits()) + 1
+//@ ensures[rejected-unchanged] err != nil ==> (forall k string :: T_resources(k) == old(T_resources(k))) && commits() == old(commits())
+//@ ensures[others-untouched] forall k string :: T_resources(k) == old(T_resources(k)) || T_resources(k) == res
+
+//@ func Store.DeleteCAS
+//@ props C18
+//@ results err
+//@ requires s != nil && id != nil && id.Type != nil && id.Tenancy != nil
+//@ requires[stored-ids-non-nil] T_resources(id) != nil ==> T_resources(id).Id != nil
+//@ ensures[absent-or-other-lifetime-untouched] old(T_resources(id)) == nil || old(T_resources(id)).Id.Uid != id.Uid ==> err == nil && (forall k string :: T_resources(k) == old(T_resources(k))) && commits() == old(commits())
+//@ ensures[version-cas] old(T_resources(id)) != nil && old(T_resources(id)).Id.Uid == id.Uid && old(T_resources(id)).Version != vsn ==> err != nil && (forall k string :: T_resources(k) == old(T_resources(k))) && commits() == old(commits())
+//@ ensures[deleted] err == nil && old(T_resources(id)) != nil && old(T_resources(id)).Id.Uid == id.Uid ==> T_resources(id) == nil && commits() == old(commits()) + 1
+//@ ensures[others-untouched] forall k string :: T_resources(k) == old(T_resources(k)) || T_resources(k) == nil
+
+//@ func Store.Read
+//@ props C18
+//@ results r, err
+//@ requires s != nil && id != nil && id.Type != nil && id.Tenancy != nil
+//@ requires[stored-well-formed] T_resources(id) != nil ==> T_resources(id).Id != nil && T_resources(id).Id.Type != nil
+//@ ensures[found] err == nil ==> r == T_resources(id) && r != nil
+//@ ensures[other-lifetime-not-found] T_resources(id) != nil && id.Uid != "" && T_resources(id).Id.Uid != id.Uid ==> err != nil
+//@ ensures[absent-not-found] T_resources(id) == nil ==> err != nil
